@@ -372,7 +372,7 @@ def power_never_more(ctx, cfg):
 # ------------------------------------------------------------------------------------------------ idempotence, rescaling invariance
 def _ir_cfgs(tier):
     out = []
-    for kind, shapes in (("total", ["n3", "2x2", "1x4"] + (["n6", "2x3", "2x2x2"] if tier == "thorough" else [])), ("avg", ["n3", "2x2"] + (["2x3"] if tier == "thorough" else [])), ("antenna", ["1x2x2", "2x2x1"])):
+    for kind, shapes in (("total", ["n3", "2x2", "1x4"] + (["2x3"] if tier == "thorough" else [])), ("avg", ["n3", "2x2"] + (["2x3"] if tier == "thorough" else [])), ("antenna", ["1x2x2", "2x2x1"])):
         for i, shp in enumerate(shapes):
             for t in (list(TARGETS) if tier == "thorough" else [list(TARGETS)[(2 * i + (kind == "avg")) % 4], list(TARGETS)[(2 * i + 1 + (kind == "avg")) % 4]]):
                 out.append(Cfg(kind, "real", shp, t, "idem"))
